@@ -171,6 +171,16 @@ func runC15(res *Result, d *Driver, g *Rng, tier string) {
 				if rgot == nil || !bytes.Equal(rgot["AuthenticatorISMG"].str, ismg) || rgot["Status"].num != st {
 					res.Violate("C15.exchange-fails:"+rname, fmt.Sprintf("response authenticator %x does not survive the wire", ismg), []string{rop, rencOp, "dec " + rname + " " + hx(rout)})
 				}
+				// the peer verifying straight from the received frame: the status octets are the frame's own (a
+				// sub-slice with the rest of the frame behind it), the frame is decoded after the recomputation
+				frame := append([]byte(nil), rout...)
+				peer := cmpp.GenConnectRespAuthISMG(frame[12:12+len(status)], string(lib), string(c.secret))
+				_, rgot2, _ := goDec(rname, frame)
+				if !bytes.Equal(frame, rout) {
+					res.Violate("C15.exchange-fails:"+rname, "recomputing the response authenticator from the status octets of the received frame changed the frame", []string{rop, rencOp})
+				} else if rgot2 == nil || !bytes.Equal(rgot2["AuthenticatorISMG"].str, peer) {
+					res.Violate("C15.exchange-fails:"+rname, "the peer's recomputation from the received frame differs from the authenticator it received", []string{rop, rencOp})
+				}
 			} else {
 				res.Violate("C15.login-does-not-encode:"+rname, "", []string{rencOp})
 			}
